@@ -29,7 +29,10 @@ COMMENTS = ["a plain comment", "mV", "ms**-1", "pA*pF**-1", "1/ms", "42", "3.5",
             "lambda", "def f():", "import os", "(", ")", "[mV", "{", "unbalanced ) paren", "'quoted'", '"double"', "# nested # hashes",
             "", " ", "mV # and more", "not a unit at all, really", "µA", "e", "E", "pi", "1e400", "-", "**", "a + b", "states(q=1)",
             "expressions(\"Z\")", "% percent", "mV/ms;", "\\backslash", "tab\tinside", "very " * 30 + "long",
-            "data from C:\\models\\hh\\", "continued on the next line \\", "10 mV", "0.001*mM", "1e3", "mV)", "ms # s"]
+            "data from C:\\models\\hh\\", "continued on the next line \\", "10 mV", "0.001*mM", "1e3", "mV)", "ms # s",
+            "\\xi(t) noise term", 'triple """ quote', "\\Upsilon and \\N{nothing}", "C:\\Users\\anna\\fits",
+            "opening rate of the activation gate from the squid axon model, rescaled to 37 C",
+            "see Hodgkin_Huxley_1952_squid_axon_model_parameters_table_3: value", "aaaaaaaaaaaaaaaaaaaaaaaaaaaaaaaaaaaa!"]
 
 BASES = [
     ("parameters(sigma=12.0, rho=21.0, beta=2.4)\nstates(x=1.0, y=2.0, z=3.05)\n"
@@ -107,11 +110,23 @@ def tasks(tier, seed):
             keep = [(p, c) for p, c in combos if p in ("inside-expressions", "trailing") and c in ("a plain comment", "mV", "(", "1/0", "", "x")]
             rest = [x for x in combos if x not in keep]
             combos = keep + rnd.sample(rest, 60)
+        headed = 'expressions("' in base
         for p, c in combos:
             t = place(base, p, c)
-            out.append({"family": "COMMENT", "id": text_id(t), "text": t, "opts": {"base": base, "edit": f"{p}|{c[:40]}"}})
+            # structural classes of the known grammar-level findings (DESIGN section 8)
+            kc = None
+            if c.strip() == "":
+                kc = "empty comment ('#' with nothing after it)"
+            elif headed and p in ("inside-expressions", "before-expressions"):
+                kc = "comment line inside / directly after the header of an expressions(\"C\") block"
+            elif c == "9**9**9" and p in ("trailing", "trailing-last"):
+                kc = "trailing comment '9**9**9' (pint evaluates it: hang)"
+            out.append({"family": "COMMENT", "id": text_id(t), "text": t, "opts": {"base": base, "edit": f"{p}|{c[:40]}", "known_class": kc}})
         for k, t in layout_edits(base).items():
-            out.append({"family": "LAYOUT", "id": text_id(t), "text": t, "opts": {"base": base, "edit": k}})
+            kc = None
+            if headed and k in ("spaces-only-line-inside-expressions", "tab-only-line-inside-expressions"):
+                kc = "whitespace-only line inside an expressions(\"C\") block"
+            out.append({"family": "LAYOUT", "id": text_id(t), "text": t, "opts": {"base": base, "edit": k, "known_class": kc}})
     return out + witness_tasks(PROP)
 
 
@@ -143,8 +158,16 @@ def load_in_subprocess(text):
     return {"ok": False, "error": "no result: " + p.stderr[-200:]}
 
 
+class ClassKeyProg(Prog):
+    def key(self, label):
+        kc = self.task["opts"].get("known_class")
+        if kc:
+            return f"{self.prop}|CLASS|{kc}"
+        return super().key(label)
+
+
 def work(task):
-    prog = Prog(PROP, task, timeout_ms=10000)
+    prog = ClassKeyProg(PROP, task, timeout_ms=10000)
     o = task["opts"]
     base = o["base"]
     edit = o["edit"]
